@@ -339,7 +339,7 @@ def classify_panic(out):
     block = out[i:i + 6000]
     msg = block.splitlines()[0]
     if "deadlock: " in msg and "bubble" in msg:
-        return dict(sig="goroutines-stranded", desc="all goroutines of the scenario are blocked for good (a caller or a client goroutine is stranded):\n" + block[:2500])
+        return None   # goroutines left behind when a scenario function returned: the drivers check stranded callers themselves
     frames = re.findall(r"\n\t(/\S+\.go):(\d+)", block)
     for path, line in frames:
         if "/go1.26" in path or "/usr/lib/go" in path or "/src/runtime/" in path or "/src/testing/" in path or "/pkg/mod/" in path:
